@@ -103,7 +103,13 @@ fn fn_case_in(tt: TT, n: usize, w: usize, store: usize) -> Vec<(String, String)>
                 b.variable(Var(i));
             }
         }
-        let keep = if store == 2 { None } else { keep };
+        // the receiving end goes away now (a shadowed binding would keep it alive)
+        let keep = if store == 2 {
+            drop(keep);
+            None
+        } else {
+            keep
+        };
         let h = build_fm(&mut b, &write_fm(tt, n, w));
         drop(keep);
         (b, h)
@@ -469,7 +475,13 @@ pub fn deep_fn_case(kind: usize, n: usize, store: usize) -> Vec<(String, String)
         for i in 0..n {
             b.variable(Var(i));
         }
-        let keep = if store == 2 { None } else { keep };
+        // the receiving end goes away now (a shadowed binding would keep it alive)
+        let keep = if store == 2 {
+            drop(keep);
+            None
+        } else {
+            keep
+        };
         let h = build_fm(&mut b, &fm);
         drop(keep);
         (b, h)
